@@ -402,7 +402,7 @@ func (c *FnCtx) runDefers() {
 
 // doReturn checks postconditions.
 func (c *FnCtx) doReturn(in *ssa.Return) {
-	c.retCount++
+	c.retCount = c.retOrdOf[in]
 	if c.fc == nil {
 		return
 	}
